@@ -62,8 +62,15 @@ pub fn interpret(corpus: &Corpus, opts: &SrcOpts, ch: &Choice, st: &mut Stats) -
       .map(|p| pat::shape_matches(&built.text, &spec, &p.node, n).is_ok())
       .unwrap_or(false);
     if !ok_ctx {
-      st.discard("pattern does not parse to the shape of the code it was cut from");
-      return None;
+      // the converted pattern tree differs from the code: ask tree-sitter alone whether the
+      // pattern text parses to the code's shape (plain form: no context needed when it does)
+      spec.selector = None;
+      let parses = catch(|| pat::build(&spec, lang)).ok().flatten().is_some();
+      if !(parses && pat::raw_shape_ok(lang, &built.text, &spec, n)) {
+        st.discard("pattern does not parse to the shape of the code it was cut from");
+        return None;
+      }
+      st.label("shape_by_raw_parse_only");
     }
   }
   for l in &built.labels {
@@ -94,9 +101,12 @@ pub fn check(case: &Case, st: &mut Stats) -> CheckResult {
     return Ok(());
   };
   if let Err(why) = pat::shape_matches(&case.source, spec, &pattern.node, &n_ts) {
-    st.discard("precondition: shape differs");
-    let _ = why;
-    return Ok(());
+    if !pat::raw_shape_ok(lang, &case.source, spec, &n_ts) {
+      st.discard("precondition: shape differs");
+      let _ = why;
+      return Ok(());
+    }
+    st.label("shape_by_raw_parse_only");
   }
   st.eval();
   st.label(&format!("lang_{}", case.lang));
